@@ -1078,6 +1078,9 @@ private:
    /// Since arguments from the environment variable could trigger reading an
    /// argument file, these two states must be managed separately.
    uint8_t                        mReadMode = ReadMode::commandLine;
+   /// Number of argument files that are currently being read, i.e. the depth
+   /// of the nesting when an argument file includes another argument file.
+   int                            mArgFileDepth = 0;
    /// Flag, set when this argument handler object was created by a Groups
    /// object.
    bool                           mUsedByGroup;
